@@ -355,10 +355,12 @@ def _parse_multiplier(mult: str, line_i: int) -> Number:
     try:
         if '/' in mult:
             return fractions.Fraction(mult)
-        elif '.' in mult:
-            return decimal.Decimal(mult)
         elif mult.isdigit():
             return int(mult)
+        elif '.' in mult or 'E' in mult.upper():
+            weight = decimal.Decimal(mult)
+            if weight.is_finite():
+                return weight
     except (ValueError, ArithmeticError) as err:
         inner_err = err
     parse_err = STVParseError(f'invalid vote weight multiplier: {mult!r}'
